@@ -104,6 +104,11 @@ def cases(tier, seed):
                 out.append({'kind': 'pow', 'seed': s, 'params': {'op': pk, 'D': D, 'P': [1, 2, 3, 1, 2, 3, 5, 7, 1, 2, 3, 33, 40][int(r.integers(13))],
                                                                   'xshape': list(XSHAPES[int(r.integers(len(XSHAPES)))]),
                                                                   'data': ['random', 'complex', 'tiny'][int(r.integers(3)) if pk.startswith('pow_utpm') else int(r.integers(2))]}})
+    # polynomials of different precision (a float32 operand next to a float64 one) and of different direction counts (one direction
+    # next to P): the result has the wider type AND its accuracy, in-place forms agree with the binary expression
+    for D in Ds[:4]:
+        for rep in range(reps):
+            out.append({'kind': 'mixedprec', 'seed': case_seed('C02', seed, 'mixedprec', D, rep), 'params': {'D': D, 'P': 1 + (D + rep) % 3}})
     return out
 
 
@@ -225,9 +230,64 @@ def _cmp(got, ref, maj, tau):
     return worst
 
 
+def _mixedprec(ctx, case):
+    p = case['params']; rng = gen.rng_of(case)
+    D, P = p['D'], p['P']
+    import operator
+    for shape in [(), (3,), (2, 2)]:
+        xw = rng.uniform(0.5, 2.0, size=(D, P) + shape)                                   # float64
+        yn = rng.uniform(0.5, 2.0, size=(D, P) + shape).astype(np.float32)                # float32: exactly representable in float64
+        for opn, op in (('add', operator.add), ('sub', operator.sub), ('mul', operator.mul), ('truediv', operator.truediv), ('pow', operator.pow)):
+            for order in ('wide op narrow', 'narrow op wide'):
+                a, b = (xw, yn) if order == 'wide op narrow' else (yn, xw)
+                try:
+                    got = op(UTPM(a.copy()), UTPM(b.copy()))
+                    ref = op(UTPM(a.astype(np.float64)), UTPM(b.astype(np.float64)))
+                except Exception as e:
+                    ctx.violation('mixed-precision:%s:raises' % opn, {'op': opn, 'order': order, 'error': repr(e)[:160]}); return
+                sc = np.maximum.accumulate(np.abs(ref.data), axis=0) + 1e-300
+                err = float(np.max(np.abs(got.data - ref.data) / sc))
+                if got.data.dtype != np.float64 or not err <= 1e-12:
+                    ctx.violation('mixed-precision:%s:%s' % (opn, 'dtype' if got.data.dtype != np.float64 else 'accuracy'),
+                                  {'op': opn, 'order': order, 'D': D, 'P': P, 'shape': shape, 'result_dtype': str(got.data.dtype), 'relative_error': err}); return
+                ctx.ok('mixed-precision:' + opn, ('mixedprec', opn, order, D, P, shape), noise=err)
+        # in-place forms: the left operand keeps its type; a wide left operand keeps its accuracy
+        for opn, iop, op in (('iadd', operator.iadd, operator.add), ('isub', operator.isub, operator.sub), ('imul', operator.imul, operator.mul),
+                             ('itruediv', operator.itruediv, operator.truediv)):
+            X = UTPM(xw.copy())
+            try:
+                iop(X, UTPM(yn.copy()))
+            except Exception as e:
+                ctx.violation('mixed-precision:%s:raises' % opn, {'op': opn, 'error': repr(e)[:160]}); return
+            ref = op(UTPM(xw.copy()), UTPM(yn.astype(np.float64)))
+            err = float(np.max(np.abs(X.data - ref.data) / (np.maximum.accumulate(np.abs(ref.data), axis=0) + 1e-300)))
+            if not err <= 1e-12:
+                ctx.violation('mixed-precision:%s:accuracy' % opn, {'op': opn, 'D': D, 'P': P, 'shape': shape, 'relative_error': err}); return
+            ctx.ok('mixed-precision:' + opn, ('mixedprec', opn, D, P, shape), noise=err)
+            # one direction on the right, P on the left: the in-place form broadcasts it like the binary expression, and an operand that
+            # cannot be used leaves the left operand as it was
+            if P > 1:
+                y1 = rng.uniform(0.5, 2.0, size=(D, 1) + shape)
+                X = UTPM(xw.copy())
+                try:
+                    ref = op(UTPM(xw.copy()), UTPM(y1.copy()))
+                except Exception:
+                    continue
+                try:
+                    iop(X, UTPM(y1.copy()))
+                except Exception as e:
+                    ctx.violation('one-direction-operand:%s:raises' % opn, {'op': opn, 'D': D, 'P': P, 'shape': shape, 'error': repr(e)[:120],
+                                                                           'left_operand_left_intact': bool(np.array_equal(X.data, xw))}); return
+                if not np.allclose(X.data, ref.data, rtol=1e-13, atol=0):
+                    ctx.violation('one-direction-operand:%s:value' % opn, {'op': opn, 'D': D, 'P': P, 'shape': shape}); return
+                ctx.ok('one-direction-operand:' + opn, ('onedir', opn, D, P, shape))
+
+
 def run_case(ctx, case):
     if case['kind'] == 'pow':
         return _pow(ctx, case)
+    if case['kind'] == 'mixedprec':
+        return _mixedprec(ctx, case)
     p = case['params']
     rng = gen.rng_of(case)
     op, form, kind, rel, D, P, data = p['op'], p['form'], p['other'], p['rel'], p['D'], p['P'], p['data']
